@@ -47,7 +47,60 @@ func (x *Exec) digits() int  { return x.Cfg.Bound("digits", 45) }
 
 // p10 is 10^e as a Real term (ite table over e's interval).
 func (x *Exec) p10(e *smt.Term) *smt.Term {
+	e = x.tryConst(e)
 	return x.B.Pow10Table(e, -150, 150, true)
+}
+
+// tryConst replaces an integer term by a constant when the path condition forces its value
+// (two solver queries, memoised). It keeps power-of-ten tables small when, for example, a
+// precision read from state is pinned by the row invariant.
+func (x *Exec) tryConst(e *smt.Term) *smt.Term {
+	if e.IsConst() || x.merge != nil {
+		return e
+	}
+	if e.Lo != nil && e.Hi != nil && new(big.Int).Sub(e.Hi, e.Lo).Cmp(big.NewInt(40)) <= 0 {
+		return e
+	}
+	if c, ok := x.constMemo[e.ID]; ok {
+		if c == nil {
+			return e
+		}
+		return c
+	}
+	x.syncConstAxioms()
+	res, vals := x.S.CheckModel(nil, []*smt.Term{e})
+	x.constMemo[e.ID] = nil
+	if res != smt.Sat {
+		return e
+	}
+	v, ok := parseSMTInt(vals[e.ID])
+	if !ok {
+		return e
+	}
+	c := x.B.BigInt(v)
+	if x.S.Check(x.B.Not(x.B.Eq(e, c))) == smt.Unsat {
+		x.constMemo[e.ID] = c
+		return c
+	}
+	return e
+}
+
+func parseSMTInt(s string) (*big.Int, bool) {
+	s = strings.TrimSpace(s)
+	neg := false
+	if strings.HasPrefix(s, "(-") {
+		neg = true
+		s = strings.TrimSuffix(strings.TrimSpace(s[2:]), ")")
+		s = strings.TrimSpace(s)
+	}
+	v, ok := new(big.Int).SetString(s, 10)
+	if !ok {
+		return nil, false
+	}
+	if neg {
+		v.Neg(v)
+	}
+	return v, true
 }
 
 // ---- big.Int
@@ -645,6 +698,14 @@ var (
 // pow10Int is 10^e as an Int term for e >= 1 (1 for e <= 0), table over e's interval.
 func (x *Exec) pow10Int(e *smt.Term) *smt.Term {
 	B := x.B
+	if c := x.tryConst(e); c != e {
+		if cv, ok := c.ConstInt64(); ok {
+			if cv <= 0 {
+				return B.Int(1)
+			}
+			return B.BigInt(pow10(int(cv)))
+		}
+	}
 	lo, hi := int64(1), int64(150)
 	if e.Hi != nil && e.Hi.IsInt64() && e.Hi.Int64() < hi {
 		hi = e.Hi.Int64()
@@ -729,16 +790,20 @@ func (x *Exec) decAtomExp(s *smt.Term) *smt.Term {
 	}
 	return e
 }
+// decAtomParts: sign and magnitude of an opaque decimal string. The magnitude is defined
+// from an integer coefficient and the exponent, |v| = dec_coeff(s) * 10^dec_exp(s), so that
+// integrality questions stay in integer arithmetic.
 func (x *Exec) decAtomParts(s *smt.Term) (*smt.Term, *smt.Term) {
 	B := x.B
-	m := B.App("dec_mag", smt.SReal, s)
-	if !x.lenAxiom[m.ID] {
-		x.lenAxiom[m.ID] = true
-		x.Assume(B.Ge(m, B.RealInt(0)), "decimal magnitude >= 0")
-		if x.Cfg.Bound("dec_integral", 0) == 1 {
-			x.Assume(B.IsInt(B.Mul(m, x.p10(B.Neg(x.decAtomExp(s))))), "decimal coefficient integral")
+	c := B.App("dec_coeff", smt.SInt, s)
+	if !x.lenAxiom[c.ID] {
+		x.lenAxiom[c.ID] = true
+		x.Assume(B.Ge(c, B.Int(0)), "decimal coefficient >= 0")
+		if c.Lo == nil {
+			c.Lo = big.NewInt(0)
 		}
 	}
+	m := B.Mul(B.ToReal(c), x.p10(x.decAtomExp(s)))
 	return B.App("dec_neg", smt.SBool, s), m
 }
 func (x *Exec) decIsIntLiteral(s *smt.Term) *smt.Term {
